@@ -91,7 +91,7 @@ def c14_xml_memory(times: int, nover: int) -> bool:
 
 def c14_footprint(which: int, boost: int, nfiles: int) -> bool:
     """
-    Files written = exactly the requested outputs; files read = the given sources (+ the bundled MATLAB template);
+    Files written = exactly the requested outputs; files read = the given sources (+ the bundled MATLAB template, + the requested output paths themselves);
     nothing else of the process environment is consulted through the file system.
     pre: 0 <= which <= 2 and 0 <= boost <= 1 and 1 <= nfiles <= 3
     post: _
@@ -121,7 +121,7 @@ def c14_footprint(which: int, boost: int, nfiles: int) -> bool:
             if sorted(written) != want_w:
                 problems.append("MATLAB wrote %r, content tree says %r" % (sorted(written), want_w))
             tplpath = os.path.join(REPO, "gtwrap", "matlab_wrapper", "matlab_wrapper.tpl")
-            extra = [r for r in read if r not in srcs and os.path.realpath(r) != os.path.realpath(tplpath)]
+            extra = [r for r in read if r not in srcs and r not in written and os.path.realpath(r) != os.path.realpath(tplpath)]
             if extra or [r for r in read if r in srcs] != srcs:
                 problems.append("MATLAB read %r" % read)
             if any(not p.startswith("tb") for p in written) or any(not d.startswith("tb") for d in rec.dirs):
@@ -129,7 +129,9 @@ def c14_footprint(which: int, boost: int, nfiles: int) -> bool:
         else:
             if written != want_w:
                 problems.append("wrote %r, requested %r" % (written, want_w))
-            if read != want_r:
+            # reading back a requested output path (e.g. to skip an identical rewrite) consults nothing foreign: what
+            # such a read may do to the result is judged by c14_existing_output, not here
+            if [r for r in read if r not in want_w] != want_r:
                 problems.append("read %r, given %r" % (read, want_r))
         ok = not problems or _fail(which=which, problems=problems)
     reached({"which": which, "nfiles": nfiles})
